@@ -11,7 +11,7 @@ META = {
              'the physical file, so foreign content is recognisable; signature = (#frames, #logical files, set-name assignment '
              'class, interleaved?); non-trivial when there are >= 2 frames or >= 2 logical files'),
     'required_obs': {'quick': ['multi-lf-written', 'multi-frame-written', 'frames-different-rows', 'interleaved',
-                               'shared-set-names-tried', 'partially-shared-tried', 'shared-after-rejected-add', 'lf-order-checked', 'rows-compared',
+                               'shared-set-names-tried', 'partially-shared-tried', 'shared-after-rejected-add', 'lf-order-checked', 'rows-compared', 'runs-with-equal-channel-names',
                                'object-compared']},
     'assumptions': ['a configuration whose set names collide across logical files may be rejected at add_* or at write time'],
 }
@@ -25,6 +25,10 @@ def cases(tier, seed):
         yield {'stratum': 'multi-frame', 'index': k, 'kind': 'frames'}
     for k in range(60 if tier == 'quick' else 1000):
         yield {'stratum': 'shared-set-names', 'index': k, 'kind': 'shared'}
+    # several runs in ONE logical file: each run has its own origin, its own CHANNEL set and its own frame, and the runs
+    # use the same channel names
+    for k in range(40 if tier == 'quick' else 1000):
+        yield {'stratum': 'runs-with-equal-channel-names', 'index': k, 'kind': 'runs'}
 
 
 def interleave(spec, r):
@@ -83,7 +87,36 @@ def run_case(case):
     avoid = metagen.default_avoid()
     shared = None
     inter = False
-    if case['kind'] == 'frames':
+    if case['kind'] == 'runs':
+        nruns = r.choice([2, 2, 3])
+        sp = gen.base_spec(r.choice([128, 8192]))
+        for j in range(nruns):
+            sp['ops'].append(gen.origin_op(f'ORIGIN-RUN{j}', fsn=10 + j))
+        names = ['DEPTH', 'GR', 'IMG'][:r.choice([2, 3])]
+        rows = []
+        for j in range(nruns):
+            n = r.choice([3, 7, 12, 25])
+            rows.append(n)
+            idx = []
+            for c, nm in enumerate(names):
+                shape = (n,) if c < 2 else (n, 3)
+                op = gen.channel_op(nm, gen.dtstr(r.choice(['float64', 'float32', 'uint16']), '<'), shape,
+                                    fill={'kind': 'pos', 'tag': 100 * (j + 1) + c}, set_name=f'RUN{j}')
+                op['origin_reference'] = {'$origin_of': j}
+                if r.random() < 0.3:
+                    op['dataset_name'] = f'run{j}_{nm}'
+                sp['ops'].append(op)
+                idx.append(len(sp['ops']) - 1)
+            fop = gen.frame_op(f'FRAME-RUN{j}', idx, **({'index_type': 'BOREHOLE-DEPTH'} if r.random() < 0.5 else {}))
+            fop['origin_reference'] = {'$origin_of': j}
+            sp['ops'].append(fop)
+        sp['write'] = {'output_chunk_size': 2 ** 16, 'input_chunk_size': r.choice([None, 2, 5])}
+        nlf = 1
+        if len(set(rows)) > 1:
+            bump('frames-different-rows')
+        bump('runs-with-equal-channel-names')
+        cls = 'runs'
+    elif case['kind'] == 'frames':
         nfr = r.choice([2, 3, 4])
         sp = gen.base_spec(r.choice([128, 8192]))
         sp['ops'].append(gen.origin_op())
@@ -212,7 +245,7 @@ def run_case(case):
             bump('shared-written')
     if nlf > 1:
         bump('multi-lf-written')
-    if case['kind'] == 'frames':
+    if case['kind'] in ('frames', 'runs'):
         bump('multi-frame-written')
     # de-duplicate by mech
     seen, out = set(), []
